@@ -600,6 +600,17 @@ def reset_covers_caches(rep, M, rid):
         rep.violation(rid, "SymmetryAnalyzer.set_system: path without reset()", "set_system can return without calling reset() (early return): the caller's Atoms object is "
                       "mutable, so when the same object is edited in place (strain, substitution) and set again, the analyzer keeps answering for the crystal it was before",
                       M.where(SA + ".set_system", early[0] if early else None))
+    # memo guard polarity: `if self._x is not None: return self._x`; with the test inverted the getter hands out None and never computes
+    for name, f in meth.items():
+        if name in lifecycle or (observed_methods is not None and name not in observed_methods):
+            continue
+        for t in ast.walk(f):
+            if isinstance(t, ast.If) and isinstance(t.test, ast.Compare) and len(t.test.ops) == 1 and isinstance(t.test.ops[0], (ast.Is, ast.Eq)) \
+                    and isinstance(t.test.comparators[0], ast.Constant) and t.test.comparators[0].value is None and isinstance(t.test.left, ast.Attribute) \
+                    and norm(t.test.left.value) == "self" and t.body and isinstance(t.body[0], ast.Return) and t.body[0].value is not None \
+                    and norm(t.body[0].value) == norm(t.test.left):
+                rep.violation(rid, f"SymmetryAnalyzer.{name}: memo guard `{norm(t.test)}`", f"the memo `{norm(t.test.left)}` is returned exactly when it is None: the getter "
+                              "hands out None on the first call and never computes its result", M.where(SA + "." + name, t))
     # memo-key completeness: a method with parameters must not return a memo that ignores them
     for name, f in meth.items():
         ps = [a.arg for a in f.args.args[1:] + f.args.kwonlyargs]
